@@ -14,7 +14,7 @@
    Working-set-only writes (SQL without dolt_commit) do not run the hook.
 
    DynamicPushOnWriteHook re-reads the system variable at every Execute and keeps (m.remote, syncHook.destDb).
-   Named deviation of the code (FixStaleDest = FALSE, commit_hooks.go DynamicPushOnWriteHook.Execute): m.remote is
+   Named deviation of dolt before commit 5c19ae0 (FixStaleDest = FALSE; the configs now use TRUE; commit_hooks.go DynamicPushOnWriteHook.Execute): m.remote is
    assigned BEFORE the new destination is resolved; when the resolution fails ("remote not found") the first write
    warns, but from then on "no change in config" holds and every write is pushed to the PREVIOUS destination without
    any warning (or fails with "invoked with nil destDB" when there was none).  FixStaleDest = TRUE models the repair
